@@ -194,6 +194,16 @@ def run(ctx):
     for z in list(range(0, 40)) + [63, 64, 65]:
         for t in ('C', 'TGCA', 'T' * 12, 'CAAAAAAAAAAAG', 'T' * 24):
             sweeps.append(('sweep_dna', 'A' * z + t))
+    # prefixes that are exact multiples of powers of ten (9- and 18-digit blocks become exactly 10^9, 10^18 one step later)
+    for p_ in list(range(1, 100)) + [125, 150, 250, 375, 500, 625, 750, 875]:
+        for m in (8, 9, 10, 17, 18, 19, 27):
+            N = p_ * 10 ** m
+            b = [int(c) for c in bin(N)[2:]]
+            for suf in ([0], [1], [0, 1]):
+                sweeps.append(('sweep_bits', b + suf))
+            d = O.kmer(N, max(1, (N.bit_length() + 1) // 2))
+            sweeps.append(('sweep_dna', d + 'C'))
+            sweeps.append(('sweep_dna', 'A' + d + 'A'))
     ctx.pmap(_w_sweep, core.chunks_of(sweeps, 20))
     ctx.bounds = {'all_bit_arrays_up_to': LB, 'all_dna_strings_up_to': LD, 'long_bits': bl, 'long_dna': dl}
     ctx.rule = ('one case = one bit array / DNA string, converted to a number on the string and the integer path (list and '
